@@ -2,7 +2,13 @@
 import json, subprocess, sys, tempfile, xml.etree.ElementTree as ET
 b = json.load(open('/root/.vp/BASELINE.json'))
 with tempfile.NamedTemporaryFile(suffix='.xml') as f:
-    subprocess.run(b['cmd'].replace('<file>', f.name), shell=True, stdout=subprocess.DEVNULL, stderr=subprocess.DEVNULL)
+    import os
+    repo = os.environ.get('VERIF_REPO')       # another checkout (a scratch worktree with a candidate repair)
+    env = dict(os.environ, PYTHONPATH=repo) if repo else None
+    cmd = b['cmd'].replace('<file>', f.name)
+    if repo:
+        cmd = cmd.replace('cd /repo ', 'cd %s ' % repo)
+    subprocess.run(cmd, shell=True, stdout=subprocess.DEVNULL, stderr=subprocess.DEVNULL, env=env)
     root = ET.parse(f.name).getroot()
 passed = set()
 for tc in root.iter('testcase'):
